@@ -5,9 +5,30 @@ package main
 import (
 	"fmt"
 	"os"
+	"time"
 
 	"verifharness/vh"
 )
+
+// guardTimeout is vh.GuardTimeout with a long watchdog and a last look at the result channel when
+// the timer fires, so that a starved process (both ready at once) is never reported as a hang.
+func guardTimeout(f func()) (panicked string, finished bool) {
+	done := make(chan string, 1)
+	go func() { done <- vh.Guard(f) }()
+	t := time.NewTimer(10 * time.Second)
+	defer t.Stop()
+	select {
+	case p := <-done:
+		return p, true
+	case <-t.C:
+		select {
+		case p := <-done:
+			return p, true
+		case <-time.After(2 * time.Second):
+			return "", false
+		}
+	}
+}
 
 func main() {
 	if len(os.Args) < 2 {
